@@ -226,8 +226,9 @@ func NewShared(a *App) *Shared {
 		n := &a.Nodes[i]
 		// built by append, hence usually with spare capacity — as a resource
 		// that assembles or reads bytecode would hand it out
-		b := make([]byte, 0, 8)
-		b = append(b, n.Encode()...)
+		enc := n.Encode()
+		b := make([]byte, 0, len(enc)+48)
+		b = append(b, enc...)
 		s.Code[n.Name] = b
 	}
 	return s
